@@ -199,6 +199,117 @@ def run(report, p):
             raises = [x for st in lp.body for x in ast.walk(st) if isinstance(x, ast.Raise)]
             r4.check(not raises, lf, raises[0] if raises else lp, "the loader raises while going through the entries of the ascmhl folder: a manifest that was published by a run killed before its chain entry was written (or any other stray entry) makes every later command abort", construct="raise inside the folder listing loop of the loader")
 
+    # ------------------------------------------------------------------ R15.5
+    r5 = report.rule(
+        "R15.5",
+        "the loader does not abort on a state that create's own write sequence passes through: no raise in the loader is conditioned on the existence of a file that the commit "
+        "creates only transiently (a temporary, a lock or marker removed later - a kill in between leaves it behind for ever), nor on `<directory made by the commit> exists and "
+        "<file published into it later> is missing`",
+        4,
+    )
+    from sa.effects import site_effects
+
+    commit = p.funcs.get("ascmhl.generator.MHLGenerationCreationSession.commit")
+    if commit is None:
+        raise AnalysisError("MHLGenerationCreationSession.commit not found")
+    creach = reach_from(p, [commit.qual])
+
+    def name_consts(e, f):
+        """string constants that take part in building the path expression (file / folder names, suffixes)"""
+        out = set()
+        for o in pr.origins(e, f):
+            for st in subterms(pr.full(o) if o[0] != "const" else o):
+                if st[0] == "const" and isinstance(st[1], str) and st[1] not in ("", ".", "/"):
+                    out.add(st[1])
+        return out
+
+    made_dirs, published, transient = [], [], []  # (func, call, consts)
+    removed = []
+    for fq in sorted(creach):
+        f = p.funcs[fq]
+        for call, t, cls, det in site_effects(p, fq):
+            if cls != "MUT":
+                continue
+            leaf = t.split(":")[-1].split(".")[-1]
+            if t.startswith("ext:os.") and leaf in ("mkdir", "makedirs"):
+                r5.instance(f, call, f"directory made: {norm(call)[:70]}")
+                made_dirs.append((f, call, name_consts(call.args[0], f)))
+            elif t.startswith("ext:os.") and leaf in ("replace", "rename") and len(call.args) == 2:
+                r5.instance(f, call, f"published: {norm(call)[:70]}")
+                published.append((f, call, name_consts(call.args[1], f), name_consts(call.args[0], f)))
+            elif t.startswith("ext:os.") and leaf in ("remove", "unlink", "rmdir"):
+                removed.append((f, call, name_consts(call.args[0], f)))
+            elif t == "builtin:open" or (t.startswith("ext:os.") and leaf == "open"):
+                if t == "builtin:open":
+                    mode = open_mode(p, call, f)
+                    if mode is not None and not any(c in mode for c in "wax+"):
+                        continue
+                r5.instance(f, call, f"file created: {norm(call)[:70]}")
+                transient.append((f, call, name_consts(call.args[0], f) if call.args else set()))
+            elif t.startswith("ext:os.") and leaf in ("utime", "chmod", "chown", "write", "truncate", "ftruncate"):
+                continue
+            else:
+                raise AnalysisError(f"{f.loc(call)}: file-system mutation `{norm(call)[:60]}` on the commit path is not classified (made / published / removed / temporary)")
+    if not made_dirs or len(published) < 2:
+        raise AnalysisError("commit path: the mkdir of the ascmhl folder / the two os.replace publications were not found")
+    # a created file is a *temporary* when the same function publishes it by os.replace (its name = the source of the replace)
+    pub_final = set().union(*[c for _, _, c, _ in published])
+    dir_names = set().union(*[c for _, _, c in made_dirs])
+
+    def existence_atoms(test, label, f):
+        """[(path expr, exists?)] implied by taking branch `label` of `test`"""
+        flip = {"T": "F", "F": "T"}
+        t, l = test, label
+        while True:
+            if isinstance(t, ast.NamedExpr):
+                t = t.value
+            elif isinstance(t, ast.UnaryOp) and isinstance(t.op, ast.Not):
+                t, l = t.operand, flip[l]
+            else:
+                break
+        if isinstance(t, ast.BoolOp):
+            if (isinstance(t.op, ast.Or) and l == "F") or (isinstance(t.op, ast.And) and l == "T"):
+                return [a for v in t.values for a in existence_atoms(v, l, f)]
+            return []
+        if isinstance(t, ast.Call) and isinstance(t.func, ast.Attribute) and t.func.attr in ("exists", "isfile", "isdir", "lexists", "is_file", "is_dir", "islink"):
+            arg = t.args[0] if t.args else t.func.value
+            return [(arg, l == "T", t)]
+        return []
+
+    lreach = reach_from(p, [loader.qual])
+    n_raise = 0
+    for fq in sorted(lreach):
+        f = p.funcs[fq]
+        raises = [n for n in walk_no_nested(f.node) if isinstance(n, ast.Raise)]
+        if not raises:
+            continue
+        g = cfg_of(f)
+        for rs in raises:
+            atoms = []
+            for t, l in g.necessary_branches(g.node_for(rs)):
+                if l in ("T", "F"):
+                    atoms += existence_atoms(t.ast, l, f)
+            if not atoms:
+                continue
+            n_raise += 1
+            r5.instance(f, rs, f"raise under {[(norm(a)[:40], pos) for a, pos, _ in atoms]}")
+            pos = [(a, name_consts(a, f), c) for a, ex, c in atoms if ex]
+            neg = [(a, name_consts(a, f), c) for a, ex, c in atoms if not ex]
+            for a, consts, c in pos:
+                # (1) a transient of the commit
+                for cf, ccall, cc in transient:
+                    own = cc - dir_names
+                    if own and own <= consts and not (own & pub_final and not (cc - pub_final - dir_names)):
+                        r5.check(False, f, rs, f"the loader aborts when `{norm(a)[:70]}` exists; the commit creates that file at {cf.loc(ccall)} and it exists only until it is published/removed - a create killed in between leaves it behind and every later command aborts", construct=f"raise when the transient {sorted(own)} exists")
+                # (2) directory exists and a file published into it is missing
+                if consts and consts <= dir_names:
+                    for b, bc, _ in neg:
+                        if (bc - consts) and (bc - consts) <= pub_final:
+                            r5.check(False, f, rs, f"the loader aborts when `{norm(a)[:50]}` exists and `{norm(b)[:50]}` does not; the commit makes that directory ({made_dirs[0][0].loc(made_dirs[0][1])}) before it publishes {sorted(bc - consts)} into it, so the first create of a history killed in between leaves a tree on which every later command aborts", construct=f"raise when the directory exists and {sorted(bc - consts)} is missing")
+    if n_raise < 2:
+        raise AnalysisError("loader: the raises conditioned on the existence of history files were not found")
+    r5.check(True, loader, loader.node, "")
+
     report.not_decided += [
         "the full crash-point quantifier: reordering of writes by the OS, durability of directory entries, fsync",
         "that the loader tolerates every intermediate state; only that no state with a half-written durable file follows from the code's write protocol",
